@@ -846,6 +846,63 @@ fn sbox_preimage<F: Fld>(sp: &Spec, want: u128) -> u128 {
     mulmod(pre, r, sp.m)
 }
 
+/// MDS inputs (raw words `< p`) whose product with row `i` is `s_hi * 2^64 + s_lo` for chosen patterns
+fn mds_row_targets(sp: &Spec, i: usize, rng: &mut Rng) -> Vec<Vec<u128>> {
+    let row = &sp.mds[i];
+    let w = sp.width;
+    let s: u128 = row.iter().sum();
+    let (Some(j7), Some(j8)) = (row.iter().position(|c| *c == 7), row.iter().position(|c| *c == 8)) else {
+        return vec![];
+    };
+    let two64 = 1u128 << 64;
+    let top = s * (sp.m - 1);
+    let hi_max = top >> 64;
+    let mut out = vec![];
+    let mut his: Vec<u128> = vec![0, 1, 2, 3, hi_max / 2, hi_max / 2 + 1, hi_max - 2, hi_max - 1, hi_max];
+    his.push(rng.below(hi_max as u64) as u128);
+    his.sort();
+    his.dedup();
+    for hi in his {
+        let z = hi * 0xFFFF_FFFF;
+        let mut los: Vec<u128> = vec![0, 1, 0xFFFF_FFFF, 1 << 32, two64 - 1, two64 - 2, (rng.u64() as u128)];
+        for d in 0..3u128 {
+            // carry boundary of s_lo + z, and the canonical boundary p
+            los.push((two64 - z).wrapping_sub(d + 1) % two64);
+            los.push((two64 - z + d) % two64);
+            los.push((sp.m + two64 - z - d - 1) % two64);
+            los.push((sp.m + two64 - z + d) % two64);
+        }
+        los.sort();
+        los.dedup();
+        for lo in los {
+            let t = hi * two64 + lo;
+            if t > top || t < 256 {
+                continue;
+            }
+            let (mut q, mut r) = (t / s, t % s);
+            // r = 7 a + 8 b with a, b >= 0
+            while r < 8 * (r % 7) && q > 0 {
+                q -= 1;
+                r += s;
+            }
+            if r < 8 * (r % 7) {
+                continue;
+            }
+            let b = r % 7;
+            let a = (r - 8 * b) / 7;
+            let mut x = vec![q; w];
+            x[j7] += a;
+            x[j8] += b;
+            if x.iter().any(|v| *v >= sp.m) {
+                continue;
+            }
+            debug_assert_eq!(row.iter().zip(&x).map(|(c, v)| c * v).sum::<u128>(), t);
+            out.push(x);
+        }
+    }
+    out
+}
+
 fn gen_rescue<H: RH>(rng: &mut Rng, tier: Tier, n: usize, emit: &mut dyn FnMut(String)) {
     let sp = H::spec();
     let h = H::NAME;
@@ -863,17 +920,32 @@ fn gen_rescue<H: RH>(rng: &mut Rng, tier: Tier, n: usize, emit: &mut dyn FnMut(S
     for len in 0..=4 * block + 8 {
         emit(format!("{} hash {}", h, hex(&rng.bytes(len))));
         emit(format!("{} hash {}", h, hex(&vec![0u8; len])));
-        if big || len % 3 == 0 {
-            emit(format!("{} hash {}", h, hex(&vec![0xffu8; len])));
+        // all-ones, and random content ending in 0x01 / 0x00 (the padding byte and a trailing zero), for
+        // every length
+        emit(format!("{} hash {}", h, hex(&vec![0xffu8; len])));
+        for tail in [1u8, 0u8] {
             let mut b = rng.bytes(len);
             if let Some(l) = b.last_mut() {
-                *l = 1;
+                *l = tail;
             }
             emit(format!("{} hash {}", h, hex(&b)));
         }
+        if len >= 2 && (big || len % 7 <= 1) {
+            // zeros ending in 0x01, and 0x01 followed by zeros: against the padded encoding of the shorter string
+            let mut b = vec![0u8; len];
+            b[len - 1] = 1;
+            emit(format!("{} hash {}", h, hex(&b)));
+            let mut b = vec![0u8; len];
+            b[len - 2] = 1;
+            emit(format!("{} hash {}", h, hex(&b)));
+        }
     }
-    for len in [5 * block - 1, 5 * block, 5 * block + 1, 8 * block + 3, 511, 512, 1000, 7 * 147, 4096] {
+    for len in [5 * block - 1, 5 * block, 5 * block + 1, 8 * block + 3, 255, 256, 257, 511, 512, 1000, 7 * 147, 4096] {
         emit(format!("{} hash {}", h, hex(&rng.bytes(len))));
+    }
+    if big && m == M62 {
+        // beyond 2^16 bytes (the element count in the capacity exceeds 2^13)
+        emit(format!("{} hash {}", h, hex(&rng.bytes(65537))));
     }
     // --- element lists of every length around the rate boundaries
     for len in 0..=4 * sp.rate_w + 2 {
@@ -892,6 +964,31 @@ fn gen_rescue<H: RH>(rng: &mut Rng, tier: Tier, n: usize, emit: &mut dyn FnMut(S
         if len % 3 == 0 {
             let es: Vec<u128> = (0..len).map(|_| elem(rng)).collect();
             emit(format!("{} hashext 3 {}", h, join(&es)));
+        }
+    }
+    // boundary raw words (and for the 62-bit field both representatives) at every length 0..3*rate+1
+    {
+        let mut bw = limb_words(m, false);
+        if m == M62 {
+            bw.extend_from_slice(&[m, m + 1, 2 * m - 1, 2 * m - 2, (1u128 << 62) - 1, 1u128 << 62, (1u128 << 62) + 1]);
+        }
+        bw.retain(|x| *x < rawlim);
+        for len in 0..=3 * sp.rate_w + 1 {
+            let raws: Vec<u128> = (0..len).map(|k| bw[(k + len) % bw.len()]).collect();
+            emit(format!("{} hashraw {}", h, join(&raws)));
+            let raws: Vec<u128> = (0..len).map(|k| bw[(3 * k + 2 * len + 1) % bw.len()]).collect();
+            emit(format!("{} hashraw {}", h, join(&raws)));
+            if len > 0 {
+                for w in [bw[len % bw.len()], *bw.last().unwrap()] {
+                    // a single non-zero boundary word at the last / first position
+                    let mut r = vec![0u128; len];
+                    r[len - 1] = w;
+                    emit(format!("{} hashraw {}", h, join(&r)));
+                    let mut r = vec![0u128; len];
+                    r[0] = w;
+                    emit(format!("{} hashraw {}", h, join(&r)));
+                }
+            }
         }
     }
     // the padding element of the Jive sponge against explicit ones and zeros
@@ -916,13 +1013,41 @@ fn gen_rescue<H: RH>(rng: &mut Rng, tier: Tier, n: usize, emit: &mut dyn FnMut(S
         let raws: Vec<u128> = (0..8).map(|_| if rng.chance(1, 4) { *rng.pick(&[0u128, m - 1, m, 2 * m - 1]) % rawlim } else { rng.u128() % rawlim }).collect();
         emit(format!("{} mergeraw {}", h, join(&raws)));
     }
+    // digests with boundary limbs in every position (both representatives for the 62-bit field)
+    {
+        let mut bw = limb_words(m, false);
+        if m == M62 {
+            bw.extend_from_slice(&[m, m + 1, 2 * m - 1, (1u128 << 62) - 1, 1u128 << 62]);
+        }
+        bw.retain(|x| *x < rawlim);
+        for (wi, w) in bw.iter().enumerate() {
+            emit(format!("{} mergeraw {} {}", h, join(&[*w; 4]), join(&[bw[(wi + 1) % bw.len()]; 4])));
+            let pos = wi % 8;
+            let mut d: Vec<u128> = (0..8).map(|_| rng.u128() % m).collect();
+            d[pos] = *w;
+            emit(format!("{} mergeraw {}", h, join(&d)));
+            let mut d = vec![0u128; 8];
+            d[7 - pos] = *w;
+            emit(format!("{} mergeraw {}", h, join(&d)));
+        }
+    }
     // --- merging with an integer: below / at / above the modulus and its multiples
-    let mut ints: Vec<u128> = vec![0, 1, 2, 5, 6, 0xFFFFFFFF, 1 << 32, 1 << 62, 1 << 63, u64::MAX as u128, u64::MAX as u128 - 1];
+    let mut ints: Vec<u128> = vec![0, 1, 2, 4, 5, 6, 7, 0xFFFFFFFF, 1 << 32, u64::MAX as u128, u64::MAX as u128 - 1];
+    // k * M + d for k = 0..4 and small |d|, for every base-field modulus (the code compares with, divides by
+    // and reduces modulo its own modulus; the other moduli and the powers of two are the neighbours it must
+    // not confuse them with)
+    for md in [M64, M62, 1u128 << 62, 1u128 << 63, (1u128 << 64) - (1u128 << 32)] {
+        for k in 0..=4u128 {
+            for d in 0..=3u128 {
+                ints.push(k * md + d);
+                ints.push((k * md).wrapping_sub(d + 1));
+            }
+        }
+    }
+    // the ranges in which a division-free quotient goes wrong: [kM, k*2^62 + M)
     for k in 1..=4u128 {
-        for d in [0u128, 1, 2] {
-            ints.push(k * m + d);
-            ints.push(k * m - d);
-            ints.push(k * m - 1 - d);
+        for v in [k * M62 + (1 << 40), k * (1u128 << 62) - 1, k * (1u128 << 62), k * (1u128 << 62) + M62 - 1, k * (1u128 << 62) + M62] {
+            ints.push(v);
         }
     }
     ints.retain(|v| *v <= u64::MAX as u128);
@@ -994,6 +1119,15 @@ fn gen_rescue<H: RH>(rng: &mut Rng, tier: Tier, n: usize, emit: &mut dyn FnMut(S
                 emit(format!("{} round {} {}", h, (pos + 3) % sp.rounds, join(&st)));
             }
         }
+        // reduction-tail patterns for EVERY output row: MDS inputs x (as S-box images) such that
+        // sum_j c_ij x_j = s_hi * 2^64 + s_lo for chosen s_hi and s_lo around the carry (2^64 - z) and the
+        // canonical (p - z) boundaries, z = s_hi * (2^32 - 1)
+        for i in 0..w {
+            for x in mds_row_targets(sp, i, rng) {
+                let st: Vec<u128> = x.iter().map(|v| sbox_preimage::<H::F>(sp, *v)).collect();
+                emit(format!("{} round {} {}", h, i % sp.rounds, join(&st)));
+            }
+        }
         for k in 0..(if big { 3000 } else { 200 }) {
             let st: Vec<u128> = (0..w)
                 .map(|_| match rng.below(6) {
@@ -1039,8 +1173,44 @@ fn gen_bytes<X: BH>(rng: &mut Rng, tier: Tier, n: usize, emit: &mut dyn FnMut(St
     let big = tier == Tier::Thorough;
     for len in (0..=140).chain([191, 192, 193, 1023, 1024, 1025, 2048, 4097]) {
         emit(format!("{} hash {}", h, hex(&rng.bytes(len))));
-        if len % 4 == 0 {
-            emit(format!("{} hash {}", h, hex(&vec![0u8; len])));
+        emit(format!("{} hash {}", h, hex(&vec![0u8; len])));
+        emit(format!("{} hash {}", h, hex(&vec![0xffu8; len])));
+        if len > 0 {
+            for tail in [0u8, 1u8] {
+                let mut b = rng.bytes(len);
+                b[len - 1] = tail;
+                emit(format!("{} hash {}", h, hex(&b)));
+            }
+        }
+    }
+    if big {
+        emit(format!("{} hash {}", h, hex(&rng.bytes(65537))));
+    }
+    // every representation of the same residues: canonical words, and for the 62-bit field the second
+    // representative r + M (and the non-normalised zero M), at every position
+    for len in 1..=5usize {
+        for pos in 0..len {
+            for w in [M62, M62 + 1, 2 * M62 - 1, 2 * M62 - 2, (1u128 << 62) - 1, 1u128 << 62, (1u128 << 62) + 1, M62 - 1, 0] {
+                let mut r: Vec<u128> = (0..len).map(|_| rng.u128() % M62).collect();
+                r[pos] = w;
+                emit(format!("{} hashraw f62 {}", h, join(&r)));
+            }
+            for w in [M64 - 1, M64 - 2, 0xFFFFFFFF, 1u128 << 32, 0xFFFFFFFF_00000000 % M64, 0] {
+                let mut r: Vec<u128> = (0..len).map(|_| rng.u128() % M64).collect();
+                r[pos] = w;
+                emit(format!("{} hashraw f64 {}", h, join(&r)));
+            }
+        }
+    }
+    for (f, m) in [("f64", M64), ("f62", M62), ("f128", M128)] {
+        for w in [0u128, 1, m - 1, m - 2, (m - 1) / 2, m, m + 1] {
+            // integers at and above the modulus are reduced by `new`
+            let w = if f == "f128" { w } else { w.min(u64::MAX as u128) };
+            emit(format!("{} hashel {} {}", h, f, join(&[w, 1, w])));
+            emit(format!("{} hashext {} 2 {}", h, f, join(&[w, 0, 0, w])));
+            if f != "f128" {
+                emit(format!("{} hashext {} 3 {}", h, f, join(&[w, 0, 1, 0, w, 2])));
+            }
         }
     }
     for (f, m, rawlim, cubic) in [("f64", M64, M64, true), ("f62", M62, 2 * M62, true), ("f128", M128, M128, false)] {
@@ -1072,6 +1242,32 @@ fn gen_bytes<X: BH>(rng: &mut Rng, tier: Tier, n: usize, emit: &mut dyn FnMut(St
             _ => rng.u64(),
         };
         emit(format!("{} mergeint {} {}", h, hex(&a), v));
+    }
+    // the integer is fed as 8 little-endian bytes whatever its relation to any modulus
+    {
+        let a = rng.bytes(X::N);
+        let mut ints: Vec<u128> = vec![0x0102030405060708, 0xFF, 0xFF00, 1 << 56, 0x8000000000000000];
+        for md in [M64, M62, 1u128 << 62, 1u128 << 63] {
+            for k in 0..=4u128 {
+                for d in 0..=2u128 {
+                    ints.push(k * md + d);
+                    ints.push((k * md).wrapping_sub(d + 1));
+                }
+            }
+        }
+        ints.retain(|v| *v <= u64::MAX as u128);
+        ints.sort();
+        ints.dedup();
+        for v in ints {
+            emit(format!("{} mergeint {} {}", h, hex(&a), v));
+        }
+        // digests with boundary bytes
+        for fill in [0u8, 0xff, 0x01, 0x80] {
+            let d = vec![fill; X::N];
+            emit(format!("{} merge {} {}", h, hex(&d), hex(&a)));
+            emit(format!("{} merge {} {}", h, hex(&a), hex(&d)));
+            emit(format!("{} mergeint {} {}", h, hex(&d), M64));
+        }
     }
     for k in 0..n {
         let len = rng.range(0, 300) as usize;
@@ -1125,8 +1321,9 @@ impl Prop for P {
         out != "bad-op"
     }
     fn rule(&self) -> &'static str {
-        "all six hashers; byte strings of every length 0..4 rate blocks (+8) with random / all-zero / all-ones / trailing-one content plus long \
-         strings; element lists of every length 0..4 rate blocks (+2) as residues, as raw internal words (both representatives of the 62-bit field) \
+        "all six hashers; byte strings of every length 0..4 rate blocks (+8) with random / all-zero / all-ones / 0x01- and 0x00-tail content plus long \
+         strings; merge_with_int integers k*M+d (k = 0..4, |d| <= 4) for both 64-bit-sized moduli and the neighbouring powers of two; reduction-tail \
+         patterns (chosen s_hi, s_lo at the carry and canonical boundaries) for every MDS output row; element lists of every length 0..4 rate blocks (+2) as residues, as raw internal words (both representatives of the 62-bit field) \
          and as quadratic / cubic extension elements; digest pairs and integers below / at / above every multiple of the modulus; sponge states and \
          single rounds with boundary limbs (0, 2^32-1, 2^32, p-1, non-canonical words >= p, S-box preimages of chosen MDS inputs) in every position; \
          a case is non-trivial when it is a distinct well-formed op line; outputs are canonical integers followed by raw words (Rescue) or the fed bytes (BLAKE3/SHA3)"
